@@ -26,6 +26,33 @@ def stores_into(body, local, field_suffix):
     return out
 
 
+
+def snapshot_units_rules(fb, ctx):
+    """UNITS: durations cross the snapshot as whole nanoseconds in both directions (as_nanos / from_nanos); a sub-second accessor or
+    another unit on one side silently changes the consumed time / the time budget of the restored authorizer (C13, and the
+    cumulative time budget of C10)."""
+    sb = fb.body(S + "::snapshot")
+    where = f"{sb['file']}:{sb['line']}"
+    snap = [s_ for _, s_ in mirq.aggregates(sb, r"schema::AuthorizerSnapshot$")]
+    lim = [s_ for _, s_ in mirq.aggregates(sb, r"schema::RunLimits$")]
+    if not (snap and lim):
+        raise CheckerError("anchor: snapshot() aggregates")
+    for what, agg, f in (("execution_time", snap[0], "execution_time"), ("limits.max_time", lim[0], "max_time")):
+        l = leaves_of_field(fb, sb, agg, f)
+        calls_ = sorted(x for x in l if x.startswith("call:") and "Duration" in x)
+        ctx.check(any(x.endswith("Duration::as_nanos") for x in l) and not any(re.search(r"Duration::(subsec_\w+|as_secs\w*|as_millis|as_micros)$", x) for x in l), "UNITS", f"snapshot(): {what} is written in whole nanoseconds", f"UNITS|writer|{what}", f"the value goes through {calls_}: the reader multiplies nothing and reads nanoseconds (Duration::from_nanos)", where)
+    rb = fb.body(S + "::from_snapshot")
+    rwhere = f"{rb['file']}:{rb['line']}"
+    for what, place in (("execution_time", "execution_time"), ("limits.max_time", "limits.max_time")):
+        ok_u = False
+        for c in mirq.calls_matching(fb, rb, r"time::Duration::from_\w+$"):
+            lv = mirq.operand_leaves(fb, rb, c.args[0])
+            if any(x == "arg1." + place for x in lv):
+                ok_u = c.callee.endswith("Duration::from_nanos")
+                if not ok_u:
+                    break
+        ctx.check(ok_u, "UNITS", f"from_snapshot: {what} is read as nanoseconds", f"UNITS|reader|{what}", "snapshot." + place + " is not converted with Duration::from_nanos", rwhere)
+
 def check(fb, ctx):
     ctx.explanation = (
         "WRITER: every field of AuthorizerSnapshot / AuthorizerWorld / RunLimits built by Authorizer::snapshot() (and "
@@ -64,6 +91,17 @@ def check(fb, ctx):
     for f in ("max_facts", "max_iterations", "max_time"):
         l = leaves_of_field(fb, sb, lim[0], f)
         ctx.check(any(x == f"arg1.limits.{f}" for x in l), "WRITER", f"snapshot(): limits.{f} is written from self.limits.{f}", f"WRITER|limits|{f}", f"depends on {sorted(x for x in l if x.startswith('arg'))}", where)
+    snapshot_units_rules(fb, ctx)
+    # the authorizer block is built against the snapshot's table: its new symbols AND its new public keys must be added to that
+    # table (sibling: AuthorizerBuilder::snapshot), otherwise key indices of the block's scopes point past / into other keys
+    for fn_ in (S + "::snapshot", AB + "::snapshot"):
+        b_ = fb.body_opt(fn_)
+        if b_ is None:
+            continue
+        ns = len(mirq.calls_matching(fb, b_, r"datalog::symbol::SymbolTable::extend$"))
+        nk = len(mirq.calls_matching(fb, b_, r"public_keys::PublicKeys::extend$"))
+        short_ = ("Authorizer" if fn_.startswith(S) else "AuthorizerBuilder") + "::snapshot"
+        ctx.check(ns >= 1 and nk == ns, "WRITER", f"{short_}: the authorizer block's symbols and public keys are both added to the snapshot table", f"WRITER|tables|{short_}", f"{ns} SymbolTable::extend but {nk} PublicKeys::extend: the keys named by the authorizer's own rules / checks are missing from world.public_keys", f"{b_['file']}:{b_['line']}")
     # ---- READER
     rb = fb.body(S + "::from_snapshot")
     rwhere = f"{rb['file']}:{rb['line']}"
@@ -155,6 +193,9 @@ def check(fb, ctx):
             l = leaves_of_field(fb, tb, agg[0], f)
             ctx.check(any(x == f"arg1.{f}" for x in l), "TRANSLATE", f"Block::translate keeps `{f}`", f"TRANSLATE|{f}", f"depends on {sorted(l)[:4]}", f"{tb['file']}:{tb['line']}")
     tablesym.rule_translate_rules(fb, ctx)
+    # the snapshot block loader applies the same check-kind gate as the token block loader
+    from props import c16
+    c16.kind_gate_rule(fb, ctx, "proto_snapshot_block_to_token_block", fb.body("biscuit_auth::format::convert::proto_snapshot_block_to_token_block"))
     # execution_time: `Some(_)` is also the "Datalog already ran" marker of Authorizer::run; the writer stores None as 0, so the
     # reader must map 0 back to None - an unconditional Some(0) makes the restored authorizer skip evaluation altogether
     et = [a for a in find_all(rh["body"], lambda z: z.get("k") == "assign" and strip(z["lhs"]).get("k") == "field" and strip(z["lhs"]).get("name") == "execution_time" and re.search(r"authorizer::Authorizer$", strip(z["lhs"]).get("ety") or ""))]
@@ -185,6 +226,17 @@ def check(fb, ctx):
         if w2 and l2:
             ok = any(x.startswith("arg1.policies") for x in leaves_of_field(fb, bs, w2[0], "authorizer_policies")) and any(x.startswith("arg1.authorizer_block_builder") for x in leaves_of_field(fb, bs, w2[0], "authorizer_block")) and all(any(x == f"arg1.limits.{f}" for x in leaves_of_field(fb, bs, l2[0], f)) for f in ("max_facts", "max_iterations", "max_time"))
             ctx.check(ok, "WRITER", "AuthorizerBuilder::snapshot writes policies, authorizer block and the three limits", "WRITER|builder", "a field of the builder snapshot does not come from the matching state", f"{bs['file']}:{bs['line']}")
+    # Authorizer::save: the declared version gates the loading of the block AND of the policies: it is the library's maximum (a
+    # constant), or at least computed from the policies too - a version derived from the facts/rules/checks alone refuses saved
+    # policies that use a newer feature (scopes, check all, 3.3 terms) than the rest
+    sv = fb.body_opt("biscuit_auth::token::authorizer::Authorizer::save")
+    if sv is not None:
+        ap = [s_ for _, s_ in mirq.aggregates(sv, r"authorizer::AuthorizerPolicies$")]
+        if ap:
+            op = mirq.agg_field(ap[0], "version")
+            lv = mirq.operand_leaves(fb, sv, op) if op is not None else set()
+            is_const = isinstance(op, dict) and op.get("k") == "const"
+            ctx.check(is_const or any(x.startswith("arg1.policies") for x in lv), "POLICIES", "Authorizer::save declares a version that covers the policies", "POLICIES|save|version", f"the saved version is computed from {sorted(x for x in lv if x.startswith('arg'))} only: policies are loaded under that version too, and one that needs a newer version makes Authorizer::from fail", f"{sv['file']}:{sv['line']}")
     # ---- POLICIES (AuthorizerPolicies serialize / deserialize)
     for fn in fb.bodies_matching(r"format::convert::(authorizer_to_proto_authorizer|proto_authorizer_to_authorizer)$"):
         short = fn["path"].split("::")[-1]
@@ -201,5 +253,5 @@ def check(fb, ctx):
             if adt:
                 fields = [f["name"] for f in adt["variants"][0]["fields"]]
                 ctx.check(set(fields) <= used, "POLICIES", "proto_authorizer_to_authorizer reads every field of AuthorizerPolicies", "POLICIES|reader", f"fields never read: {sorted(set(fields) - used)}", f"{fn['file']}:{fn['line']}")
-    ctx.not_decided = ["`always succeeds` and behavioural equality of the restored authorizer (symbol translation is a runtime computation)", "lossy casts (as_nanos() as u64, usize as u32) are observations", "a block scope naming a later block's key is resolved at restore in block order (reported by a reviewer; not analysed)"]
+    ctx.not_decided = ["`always succeeds` and behavioural equality of the restored authorizer (symbol translation is a runtime computation)", "lossy casts (as_nanos() as u64, usize as u32) are observations"]
     ctx.trusted = ["rustc MIR/HIR", "prost-generated schema types"]
